@@ -288,7 +288,16 @@ def replay_experimental(case, orbit, dirmap):
                 tgt.watch = False
                 left = st.remaining()
         except ScriptError as ex:
-            return out.fail("draws", "the code requested a draw the behaviour does not contain: %s" % str(ex)[:160])
+            # the code asked for a draw the behaviour does not contain: report where the trees part, if they do
+            tgt.watch = False
+            lf = list(tap.lf)
+            ts = [tgt.t_of(q["x1"]) for q in lf]
+            if tgt.off:
+                return out.fail("lattice", "the integrator evaluated the target at a position that is not on the orbit", None, tgt.off[:3])
+            if ts != case["leaves"][:len(ts)] or len(ts) > len(case["leaves"]):
+                return out.fail("leaves", "sequence of leaves visited differs (stopping rule / recursion)", case["leaves"], ts)
+            return out.fail("draws", "the code requested a draw the behaviour does not contain: %s" % str(ex)[:160],
+                            [d["k"] for d in case["draws"]], {"leaves_so_far": ts})
         except MachineryError:
             raise
         except Exception as ex:
@@ -503,9 +512,14 @@ def record_experimental(make, plan, meta):
 
         def w_tune(s, *a, **k):
             out = o_tune(s, *a, **k)
-            vals = [getattr(s, "_epsilon", None), getattr(s, "_epsilon_bar", None)]
-            events.append({"e": "tune", "eps_ok": bool(all(isinstance(v, (int, float, np.floating)) and math.isfinite(v) and v > 0
-                                                             for v in vals))})
+            ok = True
+            for nm in ("_epsilon", "_epsilon_bar"):
+                try:
+                    val = np.asarray(getattr(s, nm), dtype=float).reshape(-1)
+                    ok = ok and val.size == 1 and bool(np.isfinite(val[0]) and val[0] > 0)
+                except (TypeError, ValueError, AttributeError):
+                    ok = False
+            events.append({"e": "tune", "eps_ok": bool(ok)})
             return out
         cls._initialize, cls.step, cls.tune = w_init, w_step, w_tune
         try:
